@@ -87,6 +87,35 @@ def backscatter_requests(ctx, n):
     return out
 
 
+def beam_aligned_requests(ctx, n):
+    """the reference vector lies exactly along the incident or the exit beam at the solution (theta + tau = 90 deg, i.e. alpha or beta = +-90 deg,
+    sines equal to 1 up to the last bit): cubic cell, reference along a cell axis, integer hkl and wavelength = 2 a |l| / (h^2 + k^2 + l^2);
+    asked through the modes that constrain psi (at 0 / 180, where the reference vector is in the scattering plane) or alpha / beta (at +-90)"""
+    out = []
+    modes = [tr for tr in PL.modes() if "psi" in tr or "alpha" in tr or "beta" in tr or "a_eq_b" in tr]
+    for _ in range(n):
+        a = ctx.rng.choice([1.0, 2.0, 3.5, 4.0, 5.431, 8.5, 9.5, 7.25, 3.905, 12.0, ctx.rng.uniform(2, 12)])
+        h, k, l = ctx.rng.randint(-5, 5), ctx.rng.randint(-5, 5), ctx.rng.choice([-3, -2, -1, 1, 2, 3, 4])
+        ax = ctx.rng.choice([0, 1, 2, 2])
+        hkl = [float(h), float(k)]; hkl.insert(ax, float(l))
+        nvec = [0.0, 0.0]; nvec.insert(ax, 1.0)
+        wl = 2 * a * abs(l) / (h * h + k * k + l * l)
+        ub = mk_ub(lattice=(a,), rotvec=(0, 0, 0), n_hkl=tuple(nvec), surf_nhkl=tuple(nvec))
+        tr = ctx.rng.choice(modes)
+        vals = {}
+        for nm in tr:
+            if nm in VOID:
+                vals[nm] = True
+            elif nm == "psi":
+                vals[nm] = float(ctx.rng.choice([0.0, 180.0, -180.0, 0.0, 180.0, 90.0]))
+            elif nm in ("alpha", "beta"):
+                vals[nm] = float(ctx.rng.choice([90.0, -90.0, 90.0, 0.0]))
+            else:
+                vals[nm] = float(ctx.rng.choice(PL.SPECIAL + [12.5, -33.0, ctx.rng.uniform(-90, 90)]))
+        out.append((ub, vals, tuple(hkl), wl, "beam-aligned"))
+    return out
+
+
 def correspondence(ctx):
     reqs = special_requests(ctx, ctx.scale(2, 60)) + parallel_requests(ctx, ctx.scale(60, 3000))
     PL.correspondence_stream(ctx, "special values (exception classes)", reqs, "full")
@@ -134,7 +163,7 @@ def oracle(ctx, widen=1):
     from diffcalc.util import DiffcalcException
     reqs = (special_requests(ctx, ctx.scale(4, 200) * widen) + parallel_requests(ctx, ctx.scale(100, 5000) * widen)
             + zero_sweep(ctx, ctx.scale(1, 5)) + backscatter_requests(ctx, ctx.scale(300, 10000) * widen)
-            + PL.aligned_requests(ctx.rng, ctx.scale(2, 40) * widen))
+            + PL.aligned_requests(ctx.rng, ctx.scale(2, 40) * widen) + beam_aligned_requests(ctx, ctx.scale(2500, 60000) * widen))
     kinds = set()
     for ub, vals, hkl, wl, tag in reqs:
         res = S.run_impl("full", HklCalculation(ub, Constraints(vals)), hkl, wl)
